@@ -14,6 +14,7 @@ CONSTANTS
   ClassSet = {"bnd", "data"}
   AnswerSet = {"terr", "ok", "500"}
   TailSet = {"stuck"}
+  RetrySet = {"none"}
   FixScanner = FALSE
   FixCursor = TRUE
   Fix5xx = TRUE
